@@ -2,6 +2,55 @@ import CedarVerif.Lemmas.PartialSound2
 /- On a concrete request and a concrete store, partial interpretation of a fragment expression never leaves a residual. -/
 namespace Cedar
 
+theorem collectPV_noRes (f : Expr → PRes) (xs : List Expr) (h : ∀ x, x ∈ xs → ∀ r, f x ≠ .res r) :
+    match collectPV f xs with
+    | .ok pvs => ∃ vs : List Value, pvs = vs.map PartialValue.value
+    | .error r => ∀ r', r ≠ .res r' := by
+  induction xs with
+  | nil => exact ⟨[], rfl⟩
+  | cons x xs ih =>
+    have ih' := ih (fun y hy => h y (List.mem_cons_of_mem _ hy))
+    have hx := h x (List.mem_cons_self ..)
+    simp only [collectPV]
+    cases hfx : f x with
+    | val v =>
+      simp only
+      cases hc : collectPV f xs with
+      | error r => rw [hc] at ih'; simpa [Except.map] using ih'
+      | ok pvs =>
+        rw [hc] at ih'
+        obtain ⟨vs, hp⟩ := ih'
+        exact ⟨v :: vs, by simp [Except.map, hp]⟩
+    | res r => exact absurd hfx (hx r)
+    | err c => intro r'; simp
+    | fuel => intro r'; simp
+    | panic => intro r'; simp
+
+theorem collectPVKVs_noRes (f : Expr → PRes) (kvs : List (String × Expr)) (h : ∀ kv, kv ∈ kvs → ∀ r, f kv.2 ≠ .res r) :
+    match collectPVKVs f kvs with
+    | .ok pkvs => ∃ vs : List (String × Value), pkvs = vs.map (fun kv => (kv.1, PartialValue.value kv.2))
+    | .error r => ∀ r', r ≠ .res r' := by
+  induction kvs with
+  | nil => exact ⟨[], rfl⟩
+  | cons kv kvs ih =>
+    obtain ⟨k, x⟩ := kv
+    have ih' := ih (fun y hy => h y (List.mem_cons_of_mem _ hy))
+    have hx := h (k, x) (List.mem_cons_self ..)
+    simp only [collectPVKVs]
+    cases hfx : f x with
+    | val v =>
+      simp only
+      cases hc : collectPVKVs f kvs with
+      | error r => rw [hc] at ih'; simpa [Except.map] using ih'
+      | ok pvs =>
+        rw [hc] at ih'
+        obtain ⟨vs, hp⟩ := ih'
+        exact ⟨(k, v) :: vs, by simp [Except.map, hp]⟩
+    | res r => exact absurd hfx (hx r)
+    | err c => intro r'; simp
+    | fuel => intro r'; simp
+    | panic => intro r'; simp
+
 theorem noRes {e : Expr} (hf : Frag e) (req : Request) (es : Entities) (env : SlotEnv) :
     ∀ (m : Mapper) (n : Nat) (r : Expr), pinterp m (.ofConcrete req) (.ofConcrete es) env n e ≠ .res r := by
   induction hf with
@@ -50,7 +99,7 @@ theorem noRes {e : Expr} (hf : Frag e) (req : Request) (es : Entities) (env : Sl
       · cases applyUnary op _ <;> simp [PRes.ofResult]
       · simp_all
       · simp_all
-  | binaryApp op hop _ _ iha ihb =>
+  | binaryApp op _ _ iha ihb =>
     intro m n r
     cases n with
     | zero => simp [pinterp]
@@ -59,12 +108,12 @@ theorem noRes {e : Expr} (hf : Frag e) (req : Request) (es : Entities) (env : Sl
       simp only [pinterp]
       split
       · split
-        · rw [papplyBinary_storeFree _ es op hop]; cases applyBinary es op _ _ <;> simp [PRes.ofResult]
+        · rw [papplyBinary_ofConcrete]; cases applyBinary es op _ _ <;> simp [PRes.ofResult]
         · simp_all
         · simp_all
       · simp_all
       · simp_all
-  | getAttr a _ ihe =>
+  | getAttr a _ _ ihe =>
     intro m n r
     cases n with
     | zero => simp [pinterp]
@@ -81,7 +130,7 @@ theorem noRes {e : Expr} (hf : Frag e) (req : Request) (es : Entities) (env : Sl
         | some d => simp only [attrs_ofConcrete]; cases lookupKV d.attrs a <;> simp
       · simp
       · simp_all
-  | hasAttr a _ ihe =>
+  | hasAttr a _ _ ihe =>
     intro m n r
     cases n with
     | zero => simp [pinterp]
@@ -114,5 +163,48 @@ theorem noRes {e : Expr} (hf : Frag e) (req : Request) (es : Entities) (env : Sl
       simp only [pinterp]
       repeat' split
       all_goals simp_all
+  | @set xs _ ih =>
+    intro m n r
+    cases n with
+    | zero => simp [pinterp]
+    | succ n =>
+      have hc := collectPV_noRes (pinterp m (.ofConcrete req) (.ofConcrete es) env n) xs (fun x hx r => ih x hx m n r)
+      simp only [pinterp]
+      cases hcc : collectPV (pinterp m (.ofConcrete req) (.ofConcrete es) env n) xs with
+      | error r' => rw [hcc] at hc; exact hc r
+      | ok pvs =>
+        rw [hcc] at hc
+        obtain ⟨vs, hp⟩ := hc
+        simp [hp, splitPV_values]
+  | @call fn args hfn _ _ ih =>
+    intro m n r
+    cases n with
+    | zero => simp [pinterp]
+    | succ n =>
+      have hc := collectPV_noRes (pinterp m (.ofConcrete req) (.ofConcrete es) env n) args (fun x hx r => ih x hx m n r)
+      simp only [pinterp]
+      cases hcc : collectPV (pinterp m (.ofConcrete req) (.ofConcrete es) env n) args with
+      | error r' => rw [hcc] at hc; exact hc r
+      | ok pvs =>
+        rw [hcc] at hc
+        obtain ⟨vs, hp⟩ := hc
+        simp only [hp, splitPV_values, pcallExt_ne_unknown hfn]
+        cases callExt fn vs <;> simp [PRes.ofResult]
+  | @record kvs _ ih =>
+    intro m n r
+    cases n with
+    | zero => simp [pinterp]
+    | succ n =>
+      have hc := collectPVKVs_noRes (pinterp m (.ofConcrete req) (.ofConcrete es) env n) kvs (fun kv hkv r => ih kv hkv m n r)
+      simp only [pinterp]
+      cases hcc : collectPVKVs (pinterp m (.ofConcrete req) (.ofConcrete es) env n) kvs with
+      | error r' => rw [hcc] at hc; exact hc r
+      | ok pkvs =>
+        rw [hcc] at hc
+        obtain ⟨vs, hp⟩ := hc
+        have h1 : pkvs.map (·.2) = (vs.map Prod.snd).map PartialValue.value := by
+          rw [hp]; simp [List.map_map, Function.comp_def]
+        simp only [h1, splitPV_values]
+        simp
 
 end Cedar
